@@ -58,6 +58,35 @@ func (c20timeoutErr) Temporary() bool { return true }
 
 var _ net.Error = c20timeoutErr{}
 
+// c20procError: processing errors of the kinds decoders and result sinks really return; each value
+// has its own identity. Whatever its kind, a processing error is reported once and never stops the loop
+// (it says something about one frame, not about the socket).
+type c20procTimeout struct{ i int }
+
+func (e *c20procTimeout) Error() string   { return fmt.Sprintf("scripted processing timeout #%d", e.i) }
+func (e *c20procTimeout) Timeout() bool   { return true }
+func (e *c20procTimeout) Temporary() bool { return true }
+
+func c20procError(i int) error {
+	switch i % 8 {
+	case 1:
+		return fmt.Errorf("scripted processing error #%d: %w", i, io.ErrUnexpectedEOF)
+	case 2:
+		return fmt.Errorf("scripted processing error #%d: %w", i, io.EOF)
+	case 3:
+		return &net.OpError{Op: "process", Err: os.NewSyscallError(fmt.Sprintf("scripted#%d", i), syscall.EBADF)}
+	case 4:
+		return &net.OpError{Op: "process", Err: os.NewSyscallError(fmt.Sprintf("scripted#%d", i), syscall.EAGAIN)}
+	case 5:
+		return &net.OpError{Op: "process", Err: os.NewSyscallError(fmt.Sprintf("scripted#%d", i), syscall.ECONNRESET)}
+	case 6:
+		return &c20procTimeout{i}
+	case 7:
+		return fmt.Errorf("scripted processing error #%d: %w", i, os.ErrClosed)
+	}
+	return fmt.Errorf("scripted processing error #%d", i)
+}
+
 type c20script struct {
 	syms     string
 	cancelAt int // reader call index at which the context is cancelled (-1: never)
@@ -152,7 +181,7 @@ func c20run(run *vlab.Run, sc c20script) {
 		case c20F, c20E:
 			rd.frames[i] = []byte{byte(i >> 24), byte(i >> 16), byte(i >> 8), byte(i), 0xde, 0xad, 0xbe, 0xef}
 			rd.cis[i] = &gopacket.CaptureInfo{Length: i}
-			pr.procErr[i] = fmt.Errorf("scripted processing error #%d", i)
+			pr.procErr[i] = c20procError(i)
 		case c20U:
 			rd.unknown[i] = fmt.Errorf("scripted unknown read error #%d", i)
 		}
